@@ -115,6 +115,15 @@ pub fn replay(w: &Value) -> Option<bool> {
             });
             Some(r.is_ok())
         }
+        "scan-vs-engine" => {
+            // plain blocking rules only: the engine blocks exactly when one of them matches on its own
+            let rules = strs(&w["rules"]);
+            let e = Engine::from_rules_parametrised(&rules, Default::default(), true, false);
+            let mut prs = parse_all(&rules);
+            let q = make_req(&g("url"), &g("source"), &g("type"))?;
+            let any = prs.iter_mut().any(|p| p.matches(&q.req));
+            Some(e.check_network_request(&q.req).matched == any)
+        }
         "alias-cycle-child" => {
             // the failure is a stack overflow (process abort): replayed in a child process
             let exe = std::env::current_exe().ok()?;
